@@ -280,7 +280,7 @@ def build_ocaml(name, extract_v, driver_ml, modname, includes=()):
             txt = "open %s\n" % (modname[0].upper() + modname[1:]) + open(os.path.join(VERIF, "ocaml", inc)).read()
             open(os.path.join(out_dir, inc), "w").write(txt)
             inc_files.append(inc)
-        rc, out2 = run(["ocamlfind", "ocamlopt", "-O3", "-w", "-a", modname + ".mli", modname + ".ml"] + inc_files +
+        rc, out2 = run(["ocamlfind", "ocamlopt", "-package", "unix", "-linkpkg", "-O3", "-w", "-a", modname + ".mli", modname + ".ml"] + inc_files +
                        [driver_ml, "-o", exe], cwd=out_dir, timeout=900)
         if rc != 0:
             return False, exe, out + out2
